@@ -267,6 +267,13 @@ def collision_sequences():
         (c(len=4, allowChars=o("x"), requireSets=[o("ab"), o("cd"), o("ef")]), c(len=4, allowChars=o("x"), requireSets=[o("ab"), o("bc"), o("ca")])),
         (c(len=2, allowChars=o("xy"), requireSets=[o("abc"), o("de")]), c(len=2, allowChars=o("xy"), requireSets=[o("abc"), o("cd")])),
         (c(len=700, allow=3, requireSets=[o("q")], allowChars=o("0123456789!@")), c(len=700, allow=3, requireSets=[o("z")], allowChars=o("0123456789.-"))),  # same |alphabet| and length
+        # what one recipe excludes or allows by custom characters next to a class flag must not stick to that flag: the second recipe has
+        # the same flags and needs exactly those characters
+        (c(len=4, allow=15, exclude=16, excludeChars=o("abc234XYZ!@")), c(len=4, allow=15, exclude=16, require=6)),
+        (c(len=5, allow=15, exclude=4, excludeChars=o("abcXYZ!@")), c(len=5, allow=15, exclude=4, require=3)),
+        (c(len=4, allow=3, exclude=1, excludeChars=o("xyz")), c(len=4, allow=3, exclude=1, requireSets=[o("xyz")])),
+        (c(len=4, allow=4, allowChars=o("xyz"), exclude=16), c(len=4, allow=4, exclude=16, excludeChars=o("2"))),
+        (c(len=4, allow=12, require=4, requireSets=[o("ab")]), c(len=4, allow=12, require=4)),
     ]
     seqs = []
     for a, b in pairs:
